@@ -70,7 +70,19 @@ impl<T> Iterator for Items<T> {
   type Item = T;
   fn next(&mut self) -> Option<Self::Item> {
     // TODO: add error reporting here
+    #[cfg(ast_grep_verif)]
+    {
+      if super::verif_sched::active() {
+        return super::verif_sched::recv(&self.0);
+      }
+    }
     self.0.recv().ok()
+  }
+}
+#[cfg(ast_grep_verif)]
+impl<T> Drop for Items<T> {
+  fn drop(&mut self) {
+    super::verif_sched::consumer_gone();
   }
 }
 impl<T> Items<T> {
@@ -118,6 +130,8 @@ fn run_worker<W: PathWorker + ?Sized + 'static, P: Printer>(
   std::thread::spawn(move || {
     let tx = tx;
     let processor = processor;
+    #[cfg(ast_grep_verif)]
+    let walker = super::verif_sched::Walk::new(walker);
     walker.run(|| {
       let tx = tx.clone();
       let w = w.clone();
@@ -133,6 +147,8 @@ fn run_worker<W: PathWorker + ?Sized + 'static, P: Printer>(
           return WalkState::Continue;
         };
         for result in items {
+          #[cfg(ast_grep_verif)]
+          super::verif_sched::point("send", p.display().to_string());
           match tx.send(result) {
             Ok(_) => continue,
             Err(_) => return WalkState::Quit,
